@@ -114,7 +114,7 @@ func c14Exec(c *fw.Ctx, cas c14Case, from int) (key string, extend, nontrivial b
 		d.Cmd("HELO c.test")
 		d.Cmd("MAIL FROM:<s@o.test>")
 		d.Cmd("RCPT TO:<" + nm.Addr + ">")
-		body := fmt.Sprintf("From: s@o.test\r\nTo: %s\r\nSubject: subj %d\r\nMIME-Version: 1.0\r\nContent-Type: multipart/mixed; boundary=\"BB\"\r\n\r\n--BB\r\nContent-Type: text/plain\r\n\r\nhello text %d\r\n--BB\r\nContent-Type: text/plain; name=\"a.txt\"\r\nContent-Disposition: attachment; filename=\"a.txt\"\r\n\r\nATTACH %d\r\n--BB--\r\n", nm.Addr, ndeliv, ndeliv, ndeliv)
+		body := fmt.Sprintf("From: s@o.test\r\nTo: %s\r\nSubject: subj %d\r\nMIME-Version: 1.0\r\nContent-Type: multipart/mixed; boundary=\"BB\"\r\n\r\n--BB\r\nContent-Type: text/plain\r\n\r\nhello text %d\r\n--BB\r\nContent-Type: text/plain; name=\"a.txt\"\r\nContent-Disposition: attachment; filename=\"a.txt\"\r\n\r\nATTACH %d caf\xe9 cr\xe8me \xff\xfe\r\n--BB--\r\n", nm.Addr, ndeliv, ndeliv, ndeliv)
 		_, fin := d.Data(body)
 		k.Close()
 		<-k.Done
@@ -133,7 +133,7 @@ func c14Exec(c *fw.Ctx, cas c14Case, from int) (key string, extend, nontrivial b
 	}
 	deliverBackdated := func() {
 		ndeliv++
-		body := fmt.Sprintf("From: s@o.test\r\nTo: %s\r\nSubject: subj %d\r\nMIME-Version: 1.0\r\nContent-Type: multipart/mixed; boundary=\"BB\"\r\n\r\n--BB\r\nContent-Type: text/plain\r\n\r\nhello text %d\r\n--BB\r\nContent-Type: text/plain; name=\"a.txt\"\r\nContent-Disposition: attachment; filename=\"a.txt\"\r\n\r\nATTACH %d\r\n--BB--\r\n", nm.Addr, ndeliv, ndeliv, ndeliv)
+		body := fmt.Sprintf("From: s@o.test\r\nTo: %s\r\nSubject: subj %d\r\nMIME-Version: 1.0\r\nContent-Type: multipart/mixed; boundary=\"BB\"\r\n\r\n--BB\r\nContent-Type: text/plain\r\n\r\nhello text %d\r\n--BB\r\nContent-Type: text/plain; name=\"a.txt\"\r\nContent-Disposition: attachment; filename=\"a.txt\"\r\n\r\nATTACH %d caf\xe9 cr\xe8me \xff\xfe\r\n--BB--\r\n", nm.Addr, ndeliv, ndeliv, ndeliv)
 		source := "Return-Path: <s@o.test>\r\nReceived: from c.test ([pipe]) by verif.test (Inbucket)\r\n  for <" + nm.Mailbox + ">; Mon, 1 Jan 2001 00:00:00 +0000\r\n" + body
 		date := time.Unix(1500000000-int64(ndeliv)*3600, 0)
 		id, err := s.StoreH.Store.AddMessage(sys.Delivery(nm.Mailbox, "s@o.test", []string{nm.Addr}, fmt.Sprintf("subj %d", ndeliv), source, date))
